@@ -20,7 +20,7 @@ def run(ctx):
         core = [c for c in cases if c["hold"] == "none" or (c["hold"] in retry_gates and c["hold2"] == "none") or c.get("steps")]
         three = [c for c in cases if c["hold2"] != "none"]
         rest = [c for c in cases if c not in core and c["hold2"] == "none"]
-        picked = core + rng.sample(three, min(len(three), 260)) + rng.sample(rest, min(len(rest), 300))
+        picked = core + rng.sample(three, min(len(three), 200)) + rng.sample(rest, min(len(rest), 240))
     else:
         picked = cases
     rng.shuffle(picked)
@@ -28,13 +28,13 @@ def run(ctx):
     # the same proxy state machine behind an xprotocol (bolt) listener, two-way and one-way requests: cases without
     # processError-count gates (a bolt request carries a body, which shifts that count) and without step schedules
     plain = [c for c in cases if not c.get("steps") and not c["hold"].startswith("ds.pe#") and not c["hold2"].startswith("ds.pe#")]
-    bolt_cases = [c for c in plain if c["hold"] == "none"] + rng.sample([c for c in plain if c["hold"] != "none"], 180 if q else 1500)
+    bolt_cases = [c for c in plain if c["hold"] == "none"] + rng.sample([c for c in plain if c["hold"] != "none"], 120 if q else 1500)
     oneway_cases = [c for c in plain if c["hold"] == "none" and c["script"][0] in ("ok", "close", "hang", "s503")]
     t2, r2 = lc.run_sharded(ctx, "c03", bolt_cases, shards=8 if q else 12, extra_args=["-proto", "bolt"], tag="_bolt")
     t3, r3 = lc.run_sharded(ctx, "c03", oneway_cases, shards=4, extra_args=["-proto", "boltoneway"], tag="_oneway")
     # and behind an HTTP/2 listener with an HTTP/2 upstream (every kind of case, step schedules included)
     held = [c for c in cases if c["hold"] != "none" or c.get("steps")]
-    h2_cases = [c for c in cases if c["hold"] == "none" and not c.get("steps")] + (rng.sample(held, min(len(held), 260)) if q else held)
+    h2_cases = [c for c in cases if c["hold"] == "none" and not c.get("steps")] + (rng.sample(held, min(len(held), 170)) if q else held)
     t4, r4 = lc.run_sharded(ctx, "c03", h2_cases, shards=8 if q else 14, extra_args=["-proto", "http2"], tag="_h2")
     ctx.cov["protocols"] = {"http1": len(results), "bolt": len(r2), "bolt-oneway": len(r3), "http2": len(r4)}
     traces, results = traces + t2 + t3 + t4, results + r2 + r3 + r4
